@@ -58,6 +58,9 @@ func TestDrv_ReportLoop(t *testing.T) {
 				c.fifo = filepath.Join(dir, fmt.Sprintf("rl%d.fifo", k))
 				c.out = filepath.Join(dir, fmt.Sprintf("rl%d.out", k))
 				must(syscall.Mkfifo(c.fifo, 0o600))
+				if k%3 == 1 { // an output file left over from an earlier run, longer than the new output: it is replaced, not overwritten in place
+					must(os.WriteFile(c.out, bytes.Repeat([]byte("stale output of an earlier run\n"), 40000), 0o644))
+				}
 				op := map[string]any{"op": "report", "files": []string{c.fifo}, "type": "json", "output": c.out, "every": int64(c.everyMs) * int64(time.Millisecond)}
 				if c.signalMs > 0 {
 					op["signal_ms"] = c.signalMs
